@@ -1,5 +1,6 @@
 // REPLAY adapter for unit tcp_write: drives the REAL TcpEngine::writePending / doSend with the scenario found by the bounded SEARCH
 // harness (post.c, h_search) and evaluates the contract clauses natively.
+// SCR bytes: FF would block, FD would block (TLS: wants the other direction), FE fatal, k = accept min(k,len) bytes
 //   - the engine is constructed without start(); a Session is emplaced into _sessions by hand (-fno-access-control)
 //   - send / SSL_write / SSL_get_error / ERR_get_error / SSL_shutdown / SSL_free / epoll_ctl are DEFINED HERE: they interpose the libc /
 //     libssl symbols for the calls made by the header-only engine code compiled into this executable, and answer from the script
@@ -12,11 +13,11 @@ using namespace iora::network;
 
 static std::vector<uint8_t> script; static size_t sp = 0;
 static std::vector<uint8_t> wire;            // bytes the "kernel" / "OpenSSL" accepted, in order
-static int send_calls = 0, sslw_calls = 0, ssl_fatal = 0;
+static int send_calls = 0, sslw_calls = 0, ssl_fatal = 0, ssl_other = 0, ssl_zero = 0;
 static int ep_op = -1, ep_fd = -1; static uint32_t ep_events = 0;
 static long next_answer(size_t len, int *fatal) {
   uint8_t c = sp < script.size() ? script[sp] : 0xFF; sp++; *fatal = (c == 0xFE);
-  if (c >= 0xFE) return -1;
+  if (c >= 0xFD) return -1;                     // FF / FD would block (TLS: WANT_WRITE / WANT_READ), FE fatal
   return (size_t)c < len ? (long)c : (long)len;
 }
 extern "C" ssize_t send(int, const void *buf, size_t len, int) {
@@ -27,11 +28,11 @@ extern "C" ssize_t send(int, const void *buf, size_t len, int) {
 extern "C" int SSL_write(SSL *, const void *buf, int num) {
   sslw_calls++;
   if (num <= 0) replay_io::fail("SSL_write called with num <= 0 (OpenSSL API misuse)");
-  int fatal; long r = next_answer((size_t)num, &fatal); ssl_fatal = fatal;
+  int fatal; long r = next_answer((size_t)num, &fatal); ssl_fatal = fatal; ssl_other = (sp >= 1 && sp - 1 < script.size() && script[sp - 1] == 0xFD); ssl_zero = (r == 0);
   if (r > 0) wire.insert(wire.end(), (const uint8_t *)buf, (const uint8_t *)buf + r);
   return (int)r;
 }
-extern "C" int SSL_get_error(const SSL *, int) { return ssl_fatal ? SSL_ERROR_SSL : SSL_ERROR_WANT_WRITE; }
+extern "C" int SSL_get_error(const SSL *, int) { return (ssl_fatal || ssl_zero) ? SSL_ERROR_SSL : (ssl_other ? SSL_ERROR_WANT_READ : SSL_ERROR_WANT_WRITE); }
 extern "C" unsigned long ERR_get_error(void) { return 0; }
 extern "C" int SSL_shutdown(SSL *) { return 1; }
 extern "C" void SSL_free(SSL *) {}
